@@ -35,10 +35,14 @@ def ev_tree(t, vals):
     return ev_tree(t[1], vals) + ev_tree(t[2], vals)
 
 
-VT = {"other": "TOther", "ndarray": "TNdarray", "field": "TField"}
+VT = {"other": "TOther", "ndarray": "TNdarray", "field": "TField",
+      # memory layouts of array summands: Fortran order (2-d), transposed view, strided view
+      "ndarrayF": "TNdarray", "ndarrayT": "TNdarray", "ndarrayS": "TNdarray"}
 
 
-def vtype_coq(vt):
+def vtype_coq(vt, n=2):
+    if vt == "ndarray0d":
+        return "(TNd0 %s)" % ("true" if n == 1 else "false")
     if vt.startswith("multi"):
         return "(TMulti %d)" % int(vt[5:])
     return VT[vt]
@@ -51,6 +55,14 @@ def make_vals(vt, n, seed):
         return [Sym(("V", i)) for i in range(n)]
     if vt == "ndarray":
         return [rng.normal(size=3) * 10.0 ** rng.integers(-8, 8) for _ in range(n)]
+    if vt == "ndarrayF":
+        return [np.asfortranarray(rng.normal(size=(2, 3)) * 10.0 ** rng.integers(-8, 8)) for _ in range(n)]
+    if vt == "ndarrayT":
+        return [(rng.normal(size=(3, 2)) * 10.0 ** rng.integers(-8, 8)).T for _ in range(n)]
+    if vt == "ndarrayS":
+        return [(rng.normal(size=(4, 6)) * 10.0 ** rng.integers(-8, 8))[::2, ::3] for _ in range(n)]
+    if vt == "ndarray0d":
+        return [np.array(rng.normal() * 10.0 ** rng.integers(-8, 8)) for _ in range(n)]
     dom = ift.RGSpace(3)
     if vt == "field":
         return [ift.Field.from_raw(dom, rng.normal(size=3) * 10.0 ** rng.integers(-8, 8)) for _ in range(n)]
@@ -70,8 +82,9 @@ def canon(vt, x):
 def _canon(vt, x):
     if vt == "other":
         return json.dumps(x.t)
-    if vt == "ndarray":
-        return x.tobytes().hex()
+    if vt.startswith("ndarray"):       # values in index order (layout-independent) + shape
+        x = np.asarray(x)
+        return "%s:%s" % (list(x.shape), np.ascontiguousarray(x).tobytes().hex())
     if vt == "field":
         return x.asnumpy().tobytes().hex()
     return json.dumps({k: v.tobytes().hex() for k, v in sorted(x.asnumpy().items())})
@@ -125,7 +138,7 @@ def gen_cases(ctx):
             for p in partitions(n, nt):
                 cases.append((p, "other"))
     nrand = 40 if ctx.quick else 400
-    vts = ["other", "ndarray", "field", "multi1", "multi2", "multi3"]
+    vts = ["other", "ndarray", "field", "multi1", "multi2", "multi3", "ndarrayF", "ndarrayT", "ndarrayS", "ndarray0d"]
     for i in range(nrand):
         nt = int(rng.integers(1, 7))
         n = int(rng.integers(1, 41))
@@ -133,7 +146,7 @@ def gen_cases(ctx):
         p = tuple(int(x) for x in np.diff(np.concatenate([[0], cuts, [n]])))
         cases.append((p, vts[i % len(vts)]))
     # small exhaustive for the structured payload types
-    for vt in ["ndarray", "field", "multi2"]:
+    for vt in ["ndarray", "field", "multi2", "ndarrayF", "ndarray0d"]:
         for n in range(1, 5):
             for p in partitions(n, 2):
                 cases.append((p, vt))
@@ -189,7 +202,7 @@ class C23(C.Check):
             elif vt == "other":
                 checks.append("case_ok %s 1 2 %s %s" % (part, tm(o["tree"]), obs_coq(o["logs"])))
             else:
-                checks.append("comm_ok %s %s %s" % (part, vtype_coq(vt), obs_coq(o["logs"])))
+                checks.append("comm_ok %s %s %s" % (part, vtype_coq(vt, sum(p)), obs_coq(o["logs"])))
         bad = C.eval_cases(self.prop, "corr", HEADER, checks)
         for i in bad:
             o = self.obs[i]
@@ -226,7 +239,7 @@ class C23(C.Check):
                 nn = int(rng.integers(1, 30))
                 cuts = np.sort(rng.integers(0, nn + 1, size=nt - 1))
                 p = tuple(int(x) for x in np.diff(np.concatenate([[0], cuts, [nn]])))
-                vt = ["other", "ndarray", "field", "multi2"][i % 4]
+                vt = ["other", "ndarray", "field", "multi2", "ndarrayF", "ndarrayT", "ndarrayS", "ndarray0d"][i % 8]
                 o = run_case(p, vt, 777 + i)
                 n += 1
                 f = direct_failure(o)
